@@ -10,7 +10,7 @@ FAMILIES = [
     {"name": "confine", "family": "confine", "group": "policy", "driver": "drv_policy",
      "n_quick": 300, "n_thorough": 3000, "seeds_thorough": 2},
 ]
-RULE = ("policy (L1, family 2): histories of SEVERAL accepted messages (policy -> end_policy mid-policy or natural end -> optional block/running rate between policies -> next, long policy; in 2 of 5 plans the next policy OMITS the optional governance rate and inherits the stored one; set-then-keep minter of UpdateStakingRewardParams; the demonstrations of seeded changes C10-2 and C10-3 literally, then one random plan per 40 scenarios) with EVERY block of the next policy window (500-2000 blocks, no skipping) run on the real clp BeginBlocker; liquidity-protection sequences across the disabled state (UpdateLiquidityProtectionParams toggling IsActive with the same / another maximum, asset and epoch length, ModifyLiquidityProtectionRates below / at / above the maximum while on and while off, blocks in between and after; the demonstration of seeded change C10-8 literally, then one random plan per 20 scenarios); 13 directed defect inputs, then per scenario a fresh chain (2-3 pools, providers, a baseline of safe "
+RULE = ("policy (L1, family 2): histories of SEVERAL accepted messages (policy -> end_policy mid-policy or natural end -> optional block/running rate between policies -> next, long policy; in 2 of 5 plans the next policy OMITS the optional governance rate and inherits the stored one; set-then-keep minter of UpdateStakingRewardParams; the demonstrations of seeded changes C10-2 and C10-3 literally, then one random plan per 40 scenarios) with EVERY block of the next policy window (500-2000 blocks, no skipping) run on the real clp BeginBlocker; liquidity-protection sequences across the disabled state (UpdateLiquidityProtectionParams toggling IsActive with the same / another maximum, asset and epoch length, ModifyLiquidityProtectionRates below / at / above the maximum while on and while off, blocks in between and after; the demonstration of seeded change C10-8 literally, then one random plan per 20 scenarios); 14 directed defect inputs (the last: a ratio-shifting policy of zero blocks, end = start - 1); UpdatePmtpParams also draws the boundary values of the period length (end = start-2, start-1, start, start+epochLength-2 .. start+epochLength), then per scenario a fresh chain (2-3 pools, providers, a baseline of safe "
         "policies) and ONE of the ten AMM admin messages with extreme fields (uint64/int64 at 0, 1, 2^63-1, 2^63, 2^64-1; Uint up to "
         "2^256-1; nil optional fields; negative / huge / unparsable decimals; thresholds around the stored maximum) through the real "
         "ValidateBasic + message server; then >= 14 consecutive blocks plus the boundary heights of every configured period, each with "
